@@ -150,6 +150,13 @@ def gen_config(rng, all_atom=None, tier="quick"):
             descs, placed = _place(rng, mol, species, 1)
         for i in descs:
             rng.shuffle(descs[i])
+        if all_atom and rng.random() < 0.3:
+            # bracket atoms that state their hydrogen count, e.g. [>]C[CH;x=R]([<])C or [CH2;0.5]
+            for i, atom in enumerate(mol.atoms):
+                if atom["el"] != "H" and not atom["arom"] and (atom.get("w") is not None or rng.random() < 0.2):
+                    count = mol.hfill(i) - sum(d[2] for d in descs.get(i, []))
+                    if count >= 0:
+                        atom["hwrite"] = count
         members = list(range(len(mol.atoms)))
         fmt = "smiles" if all_atom else "cg"
         text, appearance = gen_mol.write_graph_text(
